@@ -146,6 +146,9 @@ func runC02(r *core.Run) {
 			Junk:    gen.JunkCfg{Separators: true, Long: i%11 == 0, Binary: true},
 			DumpCfg: gen.Cfg{MaxG: 4, MaxFrames: 5, MaxDepth: 3}}
 		c := &cliStreamCase{Stream: gen.GenStream(rr, cfg)}
+		if i%4 == 1 {
+			alignStream(c.Stream, rr)
+		}
 		if i%3 == 1 {
 			c.Args = []string{"-aggressive"}
 		}
